@@ -118,6 +118,12 @@ pub struct Gen<'a, 'b> {
     proc_limit: Option<usize>,
     /// > 0: only constants, variables and plain arithmetic (no derived forms)
     plain_only: usize,
+    /// global continuation holders (name, guard counter, type of the value the
+    /// stored continuation accepts) for re-entry scenarios
+    holders: Vec<(String, String, Option<Ty>)>,
+    /// > 0 while the argument of a stored-continuation invocation is generated:
+    /// storing a new continuation there would re-enter after the guard (a loop)
+    no_store: usize,
 }
 
 const LOCALS: [&str; 10] = ["x", "y", "z", "a", "b", "n", "lst", "acc", "i", "v"];
@@ -159,6 +165,8 @@ impl<'a, 'b> Gen<'a, 'b> {
             pure_only: 0,
             proc_limit: None,
             plain_only: 0,
+            holders: vec![],
+            no_store: 0,
         }
     }
 
@@ -423,7 +431,7 @@ impl<'a, 'b> Gen<'a, 'b> {
             }
         }
         // an escape through a visible continuation variable (any type: never returns)
-        if self.cfg.callcc && self.pure_only == 0 && self.c.chance(12) {
+        if self.cfg.callcc && self.pure_only == 0 && self.c.chance(70) {
             let conts: Vec<Var> = self.visible().into_iter().filter(|v| matches!(v.ty, Ty::Cont(_))).collect();
             if !conts.is_empty() {
                 let k = conts[self.c.below(conts.len())].clone();
@@ -432,6 +440,34 @@ impl<'a, 'b> Gen<'a, 'b> {
                     self.features.insert("escape-call");
                     return lst(vec![s(&k.name), e]);
                 }
+            }
+        }
+        // re-entry of a stored continuation, guarded by a counter so that programs terminate
+        if self.cfg.callcc && self.pure_only == 0 && self.plain_only == 0 && !matches!(ty, Ty::Proc(_) | Ty::Promise(_) | Ty::Cont(_)) && self.c.chance(64) {
+            let ready: Vec<(String, String, Ty)> = self
+                .holders
+                .iter()
+                .filter_map(|(k, c, t)| t.clone().map(|t| (k.clone(), c.clone(), t)))
+                .collect();
+            if !ready.is_empty() {
+                let (k, cnt, t) = ready[self.c.below(ready.len())].clone();
+                let limit = 1 + self.c.below(3) as i64;
+                self.no_store += 1;
+                let v = self.gen(&t, d - 1);
+                self.no_store -= 1;
+                let other = self.gen(ty, d - 1);
+                self.features.insert("stored-continuation-invocation");
+                if self.contour > 0 {
+                    self.features.insert("stored-continuation-invocation-inside-procedure");
+                }
+                return call(
+                    "if",
+                    vec![
+                        call("<", vec![s(&cnt), int(limit)]),
+                        call("begin", vec![call("set!", vec![s(&cnt), call("+", vec![s(&cnt), int(1)])]), lst(vec![s(&k), v])]),
+                        other,
+                    ],
+                );
             }
         }
         // a call of a procedure-valued variable returning this type
@@ -1224,7 +1260,7 @@ impl<'a, 'b> Gen<'a, 'b> {
         let is_value = !matches!(ty, Ty::Unit);
         let w_and_or = if matches!(ty, Ty::Bool) { 0 } else { 0 };
         let w_eval = if is_value && !matches!(ty, Ty::Proc(_) | Ty::Promise(_)) && self.pure_only == 0 { 2 } else { 0 };
-        let w_callcc = if self.cfg.callcc && is_value && self.pure_only == 0 && !matches!(ty, Ty::Proc(_) | Ty::Promise(_)) { 4 } else { 0 };
+        let w_callcc = if self.cfg.callcc && is_value && self.pure_only == 0 && !matches!(ty, Ty::Proc(_) | Ty::Promise(_)) { 12 } else { 0 };
         let w_force = if is_value && !matches!(ty, Ty::Proc(_) | Ty::Promise(_)) { 2 } else { 0 };
         let w_case = 3;
         let choice = self.c.weighted(&[6, 8, 3, 3, 4, 5, w_case, 5, w_force, w_eval, w_callcc, w_and_or, 2]);
@@ -1556,9 +1592,26 @@ impl<'a, 'b> Gen<'a, 'b> {
             fresh_data: false,
             assignable: false,
         });
-        let body = self.body(ty, d - 1);
+        let mut body = self.body(ty, d - 1);
         self.scope.truncate(mark);
         self.contour -= 1;
+        // store the continuation for later re-entry (same or later top-level form)?
+        let storable = matches!(ty, Ty::Int | Ty::Bool | Ty::Sym | Ty::Any) || *ty == list_of(Ty::Int);
+        if storable && self.no_store == 0 && !self.holders.is_empty() && self.c.chance(150) {
+            let hi = self.c.below(self.holders.len());
+            let fits = match &self.holders[hi].2 {
+                None => true,
+                Some(t) => t == ty,
+            };
+            if fits {
+                self.holders[hi].2 = Some(ty.clone());
+                let hname = self.holders[hi].0.clone();
+                self.features.insert("continuation-stored-in-global");
+                // after internal defines (if any), before the rest of the body
+                let pos = body.iter().take_while(|f| f.head_is("define")).count();
+                body.insert(pos, call("set!", vec![s(&hname), s(&nm)]));
+            }
+        }
         let mut lam = vec![s("lambda"), lst(vec![s(&nm)])];
         lam.extend(body);
         let op = *self.c.pick(&["call/cc", "call-with-current-continuation"][..]);
@@ -1736,6 +1789,15 @@ impl<'a, 'b> Gen<'a, 'b> {
     pub fn session(&mut self) -> Session {
         let n = 1 + self.c.below(self.cfg.max_forms);
         let mut forms = vec![];
+        if self.cfg.callcc {
+            let nh = 1 + self.c.below(2);
+            for i in 0..nh {
+                let (k, c) = (format!("kc{}", i), format!("cc{}", i));
+                forms.push(call("define", vec![s(&k), Sx::Bool(false)]));
+                forms.push(call("define", vec![s(&c), int(0)]));
+                self.holders.push((k, c, None));
+            }
+        }
         for _ in 0..n {
             self.nodes = 0;
             self.contour = 0;
